@@ -399,6 +399,28 @@ func (u *Unit) libraryModel(st *State, cs *callSite) ([]Value, bool) {
 		nv := u.unbox(st, scalar(cs.args[0].T, found), pt.Elem())
 		u.store(st, tgt, mergeVal(okT, nv, oldv))
 		return []Value{boolV(okT)}, true
+	case "bytes.Equal":
+		// bytes.Equal(a[:], b[:]) over two whole digest arrays is a == b
+		if len(cs.call.Args) == 2 {
+			full := func(e ast.Expr) (ast.Expr, bool) {
+				se, ok := ast.Unparen(e).(*ast.SliceExpr)
+				if !ok || se.Low != nil || se.High != nil || se.Max != nil {
+					return nil, false
+				}
+				t := u.typeOf(se.X)
+				return se.X, t != nil && isChunkID(t)
+			}
+			xa, oka := full(cs.call.Args[0])
+			xb, okb := full(cs.call.Args[1])
+			if oka && okb {
+				mark()
+				va, vb := u.eval(st, xa), u.eval(st, xb)
+				if len(va.L) == 1 && len(vb.L) == 1 {
+					return []Value{boolV(Eq(va.term(), vb.term()))}, true
+				}
+			}
+		}
+		return nil, false
 	case "os.IsNotExist":
 		mark()
 		f := u.d.Fun("spec_notExist", []Sort{SInt}, SBool) // = spec func notExist in stubs/std.spec
